@@ -1545,11 +1545,32 @@ void OPNMIDIplay::killSustainingNotes(int32_t midCh, int32_t this_adlchn, uint32
                 && ((jd.sustained & sustain_type) != 0))
             {
                 int midiins = '?';
+                jd.sustained &= ~sustain_type;
+                if(jd.sustained != OpnChannel::LocationData::Sustain_None)
+                    continue;//Remove only when note is clean from any holders
+
+                // Sostenuto marks notes whose key is down: the key may still be held
+                MIDIchannel &midiChan = m_midiChannels[jd.loc.MidCh];
+                MIDIchannel::notes_iterator i = midiChan.find_activenote(jd.loc.note);
+                bool keyDown = !i.is_end() && !i->value.isBlank && (i->value.phys_find(c) != NULL);
+
+                if(keyDown && this_adlchn < 0)
+                    continue;//The note goes on as an ordinary one until its key is released
+
+                if(keyDown)
+                {
+                    // The channel is being taken over: detach the note from it
+                    i->value.phys_erase(c);
+                    if(i->value.chip_channels_count == 0)
+                    {
+                        midiChan.cleanupNote(i);
+                        midiChan.activenotes.erase(i);
+                    }
+                }
+
                 if(hooks.onNote)
                     hooks.onNote(hooks.onNote_userData, static_cast<int>(c), jd.loc.note, midiins, 0, 0.0);
-                jd.sustained &= ~sustain_type;
-                if(jd.sustained == OpnChannel::LocationData::Sustain_None)
-                    m_chipChannels[c].users.erase(j);//Remove only when note is clean from any holders
+                m_chipChannels[c].users.erase(j);
             }
         }
 
